@@ -463,10 +463,20 @@ def check_every(ctx):
                          if not isinstance(x, ast.Constant)]
                 if vals and names == ['output_format']:
                     fmtc = vals[0]
+        ys = [e for e in p.events if e.kind == 'yield']
         if fmtc not in ('yaml', 'json'):
+            # no entry is only legitimate for an unknown output format
+            neither = 0
+            for c in p.conds:
+                e = c.expr
+                if c.kind == 'test' and not c.pol and isinstance(
+                        e, ast.Compare) and isinstance(
+                            e.ops[0], ast.Eq) and 'output_format' in U(e):
+                    neither += 1
+            if not ys and neither < 2 and bad is None:
+                bad = (p, 'yaml/json')
             continue
         n += 1
-        ys = [e for e in p.events if e.kind == 'yield']
         want = fmt if fmtc == 'yaml' else fj
         ok = len(ys) == 1
         if ok:
